@@ -413,6 +413,32 @@ def context_forwarding_rule(repo: Repo, rep: Report, rid: str) -> None:
     rep.check(len(loops) == 1, rid, f"{st.key}:array-levels", "every array level is stripped (a loop) before deciding whether the element is an inline structure",
               "generate_structure_stub strips at most one array level when looking for an inline element structure: for 'struct {...} cells[8][8]' no inline "
               "class is emitted and the hint names '__anonymous_0__', which the cstruct object does not provide", st.loc())
+    if len(loops) == 1:
+        w = loops[0]
+        rep.check("Pointer" in norm(w.test), rid, f"{st.key}:pointer-levels", "pointers are stripped like array levels before deciding whether the target is an inline structure",
+                  "generate_structure_stub does not look through pointers when deciding about an inline class: 'struct {...} *p' is hinted "
+                  "Pointer[cstruct.__anonymous_0__], a name the stub never declares", st.loc(w))
+        var = next((norm(a_.targets[0]) for a_ in w.body if isinstance(a_, ast.Assign) and norm(a_.value).endswith(".type")), None)
+        tests = [c for c in ast.walk(st.node) if isinstance(c, ast.Compare) and any(isinstance(o, (ast.In, ast.NotIn)) for o in c.ops) and "typedefs" in norm(c.comparators[0])]
+        from ..util import resolve_local as _rl2
+
+        def names_stripped(e: ast.AST, depth: int = 4) -> bool:
+            if var is None or depth < 0:
+                return False
+            for x in ast.walk(e):
+                if isinstance(x, ast.Name):
+                    if x.id == var:
+                        return True
+                    v_ = _rl2(st.node, x, 1)
+                    if v_ is not x and v_ is not None and names_stripped(v_, depth - 1):
+                        return True
+            return False
+
+        for c in tests:
+            rep.check(names_stripped(c.left), rid, f"{st.key}:declared-elsewhere test", "the 'declared on the cstruct object?' test looks up the stripped structure's own name",
+                      f"'{short(c, 70)}' looks up the name of the field type, not of the structure left after stripping arrays / pointers: for 'child x[2]' that is "
+                      "the synthesised name 'child[2]', never a typedef, so a globally defined structure gets a duplicate inline class that shadows the real one",
+                      st.loc(c))
 
 
 def class_body_rule(repo: Repo, rep: Report, rid: str) -> None:
